@@ -230,10 +230,10 @@ def write_replay(kind, body):
     body["kind"] = "c20"
     body["property"] = "C20"
     body["what"] = kind
-    name = "C20-%s-%s.json" % (kind, canon.digest(json.dumps(body, sort_keys=True))[:10])
+    name = "C20-%s-%s.json" % (kind, canon.digest(json.dumps(body))[:10])
     p = os.path.join(d, name)
     with open(p, "w") as f:
-        json.dump(body, f, indent=1, sort_keys=True)
+        json.dump(body, f, indent=1)
     return p
 
 
@@ -257,6 +257,25 @@ def replay(body, path):
         sys.exit(0 if tag is None else 3)
     finally:
         zp.close()
+
+
+def pipeline_matches(zp, finding, an):
+    """Known findings are identified by the specific input that fails, so that a different
+    violation of the same property is still reported."""
+    m = finding.get("match", {})
+    if m.get("matcher") != "scc_first_cue_flash":
+        return False
+    p = an["pipeline"]
+    if p["writer"] != "SCCWriter" or "CaptionReadTimingError" not in an["tag"] or "Unsupported cue duration" not in an["tag"]:
+        return False
+    # differential: the same set with only its first cue lengthened by 3 s must write and read back fine;
+    # then the failure is exactly the un-pre-rolled first cue
+    import copy
+    q = copy.deepcopy(p)
+    first = q["recipe"]["langs"][0]["captions"][0]
+    first["end"] = first["end"] + 3000000
+    r = zp.submit(0, {"kind": "pipeline_batch", "pipelines": [q]})["results"][0]
+    return judge_pipeline(q, r) is None
 
 
 def judge_pipeline(p, r):
@@ -442,7 +461,12 @@ def _run(seed, tier, a, t0, evidence_path):
     seen = {}
     try:
         for an in anomalies:
-            key = an["tag"] if an["what"] == "detect" else an["tag"].split(":")[0] + an["pipeline"]["writer"]
+            kf_pipe = None
+            if an["what"] == "pipeline":
+                kf_pipe = next((f for f in known if f.get("status") == "open" and f.get("property") == "C20"
+                                and pipeline_matches(zp, f, an)), None)
+            key = an["tag"] if an["what"] == "detect" else an["tag"].split(":")[0] + an["pipeline"]["writer"] + \
+                ("|known:" + kf_pipe["id"] if kf_pipe else "")
             if key in seen:
                 continue
             seen[key] = 1
@@ -458,7 +482,7 @@ def _run(seed, tier, a, t0, evidence_path):
             else:
                 path = write_replay("pipeline", {"pipeline": an["pipeline"], "tag": an["tag"], "hash_seed": 0})
                 desc = an["tag"]
-                kf = None
+                kf = kf_pipe
             if kf:
                 lines.append("KNOWN-FINDING: property=C20 %s (replay=%s)" % (kf["what"], path))
             else:
